@@ -410,6 +410,52 @@ slab_f (int hi, int L)
     }
 }
 
+/* (g) yescrypt cost fields r, p, t: every value 1..200 (both size classes of the number encoding).
+   t is stepped at N = 2^7: for a tiny N yescrypt rounds the loop count up to even, so that e.g. t = 1 and t = 2 at N = 4 are
+   the same amount of work and, by the algorithm's definition, the same hash */
+static void
+slab_g (int field, int w)
+{
+  /* all values 1..200 of one field: the hash parts must be pairwise different (a decoder that drops or misplaces bits of the
+     multi-character numbers maps two values to the same cost) */
+  enum { VMAX = 200 };
+  static char hp[VMAX + 1][64];
+  static char st[VMAX + 1][120];
+  char rp[48], sig[160];
+  const char *tag = w ? "$gy$" : "$y$";
+  int m = w ? M_GOST : M_YESCRYPT;
+  const char *fname = field == 0 ? "yescrypt-r" : field == 1 ? "yescrypt-p" : "yescrypt-t";
+  snprintf (rp, sizeof rp, "g:%d:%d", field, w);
+  for (int v = 1; v <= VMAX; v++)
+    {
+      if (field == 0)
+        vh_ysetting (st[v], sizeof st[v], tag, 2, (uint32_t) v, 1, 0, "saltSALT");
+      else if (field == 1)
+        vh_ysetting (st[v], sizeof st[v], tag, 10, 1, (uint32_t) v, 0, "saltSALT");
+      else
+        vh_ysetting (st[v], sizeof st[v], tag, 7, 1, 1, (uint32_t) v, "saltSALT");
+      char *h = hash ("pw", st[v], d1);
+      vh_stat ("yescrypt_cost_values", 1);
+      hp[v][0] = 0;
+      if (!h)
+        {
+          snprintf (sig, sizeof sig, "cost-value-refused/%s/method=%s", fname, vh_methods[m].name);
+          vh_viol (sig, "{\"method\":\"%s\",\"field\":\"%s\",\"value\":%d,\"setting\":%s,\"replay\":\"%s\"}", vh_methods[m].name, fname, v, vh_jstr (st[v]), rp);
+          return;
+        }
+      snprintf (hp[v], sizeof hp[v], "%s", h + hash_off (method_of (h), h));
+    }
+  for (int a = 1; a <= VMAX; a++)
+    for (int b = a + 1; b <= VMAX; b++)
+      if (!strcmp (hp[a], hp[b]))
+        {
+          snprintf (sig, sizeof sig, "salt-or-cost-not-in-hash/%s/method=%s", fname, vh_methods[m].name);
+          vh_viol (sig, "{\"method\":\"%s\",\"what\":\"two values of the field give the same hash part\",\"value_a\":%d,\"value_b\":%d,\"setting_a\":%s,\"setting_b\":%s,\"hash_part\":%s,\"replay\":\"%s\"}",
+                   vh_methods[m].name, a, b, vh_jstr (st[a]), vh_jstr (st[b]), vh_jstr (hp[a]), rp);
+          return;
+        }
+}
+
 int
 main (int argc, char **argv)
 {
@@ -428,6 +474,8 @@ main (int argc, char **argv)
         slab_e (a, b);
       else if (sscanf (vh_replay, "f:%d:%d", &a, &b) == 2)
         slab_f (a, b);
+      else if (sscanf (vh_replay, "g:%d:%d", &a, &b) == 2)
+        slab_g (a, b);
       else if (sscanf (vh_replay, "c:%d", &a) == 1)
         slab_c (a);
       else if (sscanf (vh_replay, "d:%d", &a) == 1)
@@ -444,6 +492,10 @@ main (int argc, char **argv)
   for (int m = 0; m < M_COUNT; m++)
     if (vh_mine (idx++))
       slab_c (m);
+  for (int field = 0; field < 3; field++)
+    for (int w = 0; w < 2; w++)
+      if (vh_mine (idx++))
+        slab_g (field, w);
   for (int hi = 0; hi < NFHEADS; hi++)
     for (int L = 1; L <= fheads[hi].maxlen; L++)
       if (vh_mine (idx++))
